@@ -42,6 +42,7 @@ from formulas.errors import (
     RangeValueError, FoundError, BaseError, BroadcastError, InvalidRangeError
 )
 from formulas.tokens.operand import Error, XlError
+from formulas import _verif
 
 COMPILING = sh.Token('Run')
 
@@ -127,6 +128,10 @@ def is_not_empty(v):
 
 def wrap_impure_func(func):
     def wrapper(compiling, *args, **kwargs):
+        if _verif.ON: _verif.emit(
+            'vol', fn=getattr(func, '__name__', str(func)),
+            compiling=bool(compiling)
+        )
         return sh.NONE if compiling else func(*args, **kwargs)
 
     return functools.update_wrapper(wrapper, func)
